@@ -22,8 +22,11 @@ def actor(aid, kind, ch="", p=0, j=0, fail=""):
     return {"id": aid, "kind": kind, "ch": ch, "p": p, "j": j, "fail": fail}
 
 
-def op(actors, chans, sched):
-    return "sched " + json.dumps({"actors": actors, "chans": chans, "sched": sched}, separators=(",", ":"))
+def op(actors, chans, sched, connect=None):
+    d = {"actors": actors, "chans": chans, "sched": sched}
+    if connect:
+        d["connect"] = connect
+    return "sched " + json.dumps(d, separators=(",", ":"))
 
 
 def parse_op(line):
@@ -84,6 +87,26 @@ def gen_fast(rng):
         else:
             sched.append(rng.choice(["H", "R"]))
     return op(acts, chans, sched)
+
+
+def gen_connect(rng):
+    """Connect with connect-time server-side subscriptions (goroutines spawned by connectCmd), raced by a closer
+    and a server-side unsubscribe.  Outside the Lean model: oracle only."""
+    subs = []
+    for ch in rng.sample(["a", "b"], rng.choice([1, 2, 2])):
+        fail = rng.choice(["presadd", "bsub"]) if rng.random() < 0.15 else ""
+        p = 1 if fail == "presadd" else rng.randint(0, 1)
+        subs.append({"ch": ch, "p": p, "j": rng.randint(0, 1), "fail": fail})
+    acts = [actor("K", "connect")]
+    if rng.random() < 0.85:
+        acts.append(actor("C", "close"))
+    if rng.random() < 0.4:
+        acts.append(actor("U", "sunsub", rng.choice("ab")))
+    if rng.random() < 0.3:
+        acts.append(actor("S", "ssub", rng.choice("ab"), rng.randint(0, 1), rng.randint(0, 1)))
+    ids = [a["id"] for a in acts] + ["x1", "x2", "x3"]
+    sched = ["@K"] + ["@" + rng.choice(ids) for _ in range(rng.choice([0, 2, 4, 7, 11, 16]))]
+    return op(acts, ["a", "b"], sched, connect=subs)
 
 
 def gen_slow(rng):
@@ -308,7 +331,9 @@ def oracle_c07(case):
         if nj - nl > (1 if live else 0):
             return "ended subscription has a join but no leave"
         subs = [a for a in case.spec["actors"] if a["kind"] in SUBK and a["ch"] == ch]
-        if subs and all(a["j"] for a in subs) and nl != f["onunsub"].get(ch, 0):
+        subs += [a for a in case.spec.get("connect", []) if a["ch"] == ch]
+        # (OnUnsubscribe is installed by the OnConnect handler: not a reliable count while connecting)
+        if subs and not case.spec.get("connect") and all(a["j"] for a in subs) and nl != f["onunsub"].get(ch, 0):
             return "number of leaves differs from the number of ended established subscriptions"
     att = getattr(case, "attributed", None)
     if att:
@@ -441,6 +466,7 @@ def run(ctx, prop):
         ops = list(dict.fromkeys(corpus + [k for _, k in known]))
         rng = ctx.rng
         ops += [gen_fast(rng) for _ in range(ctx.scale(450, 6000))]
+        ops += [gen_connect(rng) for _ in range(ctx.scale(120, 3000))]
         ops += [gen_slow(rng) for _ in range(ctx.scale(8, 240))]
         if ctx.thorough:
             for acts in enum_templates():
@@ -461,14 +487,17 @@ def run(ctx, prop):
     if getattr(ctx, "last_go_crash", None) and len(good) < len(cases) // 2:
         ctx.notes.append("go harness crashed: " + str(ctx.last_go_crash)[-400:])
     ctx.log(f"go harness done: {len(good)}/{len(cases)} usable traces")
-    model = ctx.lean_run(lean_lines(good), timeout=3000)
-    if model is None:
+    modelled = [c for c in good if not c.spec.get("connect")]
+    mres = ctx.lean_run(lean_lines(modelled), timeout=3000)
+    if mres is None:
         proofs_ok = False
-        model = []
+        mres = []
+    by_op = {c.op: (mres[i] if i < len(mres) else "<missing>") for i, c in enumerate(modelled)}
+    model = [by_op.get(c.op, "accept jl= (connect scenario: outside the model)") for c in good]
     ctx.log("lean trace validation done")
     for i, c in enumerate(good):
         m = model[i] if i < len(model) else ""
-        if m.startswith("accept"):
+        if m.startswith("accept") and not c.spec.get("connect"):
             mm = re.search(r"jl=(\S*)", m)
             c.attributed = [x for x in (mm.group(1).split(",") if mm else []) if x]
     seen = set()
@@ -489,6 +518,8 @@ def run(ctx, prop):
                 ctx.count("hold-connectMu")
         if any(" tmolog " in e for e in c.events):
             ctx.count("wait-gate-timeout")
+        if c.spec.get("connect"):
+            ctx.count("connect-time-subs")
         ctx.count("settled:" + ("closed" if c.final["st"] == 3 else "open"))
         msg = oracle(c)
         m = model[i] if i < len(model) else "<missing>"
@@ -512,7 +543,8 @@ def run(ctx, prop):
                                       "correspondence": "Model/SubProto.lean (driver Model/SubProtoDriver.lean) vs client.go/hub.go/node.go"},
                               no_input=(msg is None))
             ctx.extra["disagreements"] = ctx.extra.get("disagreements", 0) + 1
-    ctx.traces_validated = len(good)
+    ctx.traces_validated = len(modelled)
+    ctx.extra["oracle_only_connect_scenarios"] = len(good) - len(modelled)
     ctx.extra.setdefault("disagreements", 0)
     ctx.extra["harness_dropped"] = len(cases) - len(good)
     # every stored finding must still reproduce (KNOWN-FINDING is printed by ctx.violation above)
